@@ -16,14 +16,15 @@ for d in sorted(glob.glob('/verif/seeded/*/')):
     elif missed:
         mm = re.search(r'(C\d\d) strengthened', hist)
         note = f"missed at first; {mm.group(1) if mm else 'check'} strengthened, now caught"
-    if re.search(r'round [45678]:', hist) and re.search(r'missed', hist):
+    if re.search(r'round [456789]:', hist) and re.search(r'missed', hist):
         note = f"missed at first; {m['breaks_property']} strengthened, now caught"
     if 'machinery errors' in hist:
         note = "four checks ended as machinery errors at first; the driver now reports escaped subject panics"
     if 'not reported by C11' in hist:
         note = "under run() only the order of `remaining` changes, which C11's statement leaves open; the stepping symptoms are C10's and C02's subject and are reported there"
-    if 'round 8: not reported' in hist:
-        note = hist.split('round 8: ')[-1][:230].rstrip() + ('...' if len(hist.split('round 8: ')[-1]) > 230 else '')
+    m9 = re.search(r'round [89]: (not reported.*)', hist)
+    if m9:
+        note = m9.group(1)[:230].rstrip() + ('...' if len(m9.group(1)) > 230 else '')
     if 'behaviour-preserving' in hist:
         note = "missed at first; C06 strengthened (caught on the tree it was written for); after fix 757ff1b the change no longer breaks the property"
     rows.append((m['id'], m['breaks_property'], ', '.join(caught) if caught else '-', note))
